@@ -3,6 +3,7 @@ package props
 import (
 	"crypto/ed25519"
 	"encoding/hex"
+	"errors"
 	"fmt"
 	"math"
 	"math/rand"
@@ -13,6 +14,7 @@ import (
 	"time"
 
 	biscuit "github.com/biscuit-auth/biscuit-go/v2"
+	"github.com/biscuit-auth/biscuit-go/v2/datalog"
 
 	"verif/harness/ast"
 	"verif/harness/core"
@@ -501,7 +503,73 @@ func c10Samples() [][]byte {
 	return c10SampleBytes
 }
 
+// c10UseAfterTimeout: the deadline fires while a (hostile, slow) token program is being
+// evaluated; the caller then goes on using the SAME authorizer (PrintWorld, Query, Authorize).
+// The delay hook at the producer's send makes the evaluation outlast a 1 ms deadline for
+// certain. In the -race build a leftover evaluation goroutine that still touches the world
+// shows up as a race report; in the plain build its consequence (a panic in the caller) is
+// what the panic monitor sees.
+func c10UseAfterTimeout(c *core.C) {
+	n := 30 + c.R.Intn(40)
+	blocks := []ast.Block{{Facts: factsP(n), Rules: []ast.Rule{
+		{Head: ast.P("q", vX), Body: []ast.Pred{ast.P("p", vX)}},
+		{Head: ast.P("r", vX, ast.Str("tag")), Body: []ast.Pred{ast.P("p", vX)}, Exprs: []ast.Expr{{ast.OV(ast.Str("a")), ast.OV(ast.Str("b")), ast.OB(ast.BAdd), ast.OV(ast.Str("ab")), ast.OB(ast.BEqual)}}},
+	}}}
+	tok, err := buildScenarioToken(c.Seed, fmt.Sprintf("c10-uat-%d", c.Idx), blocks)
+	if err != nil {
+		c.Violate("build-refused", err.Error(), nil)
+		return
+	}
+	if c.R.Intn(2) == 0 {
+		if t2, err := tok.Reload(); err == nil {
+			tok = t2
+		}
+	}
+	datalog.VerifSetDelay("combine.send", 400*time.Microsecond)
+	defer datalog.VerifSetDelay("combine.send", 0)
+	desc := map[string]any{"kind": "use after timeout", "facts": n, "maxDuration": "1ms", "delay": "combine.send 400us"}
+	timedOut := false
+	pi := lib.Try(func() {
+		a, err := tok.B.AuthorizerFor(biscuit.WithSingularRootPublicKey(tok.Pub), biscuit.WithWorldOptions(datalog.WithMaxDuration(time.Millisecond), datalog.WithMaxFacts(1000000), datalog.WithMaxIterations(1000)))
+		if err != nil {
+			return
+		}
+		a.AddPolicy(allowAll.Lib())
+		aerr := a.Authorize()
+		timedOut = errors.Is(aerr, datalog.ErrWorldRunLimitTimeout)
+		stop := time.Now().Add(120 * time.Millisecond)
+		for time.Now().Before(stop) {
+			c.Eval(1)
+			_ = a.PrintWorld()
+			_, _ = a.Query(ast.Rule{Head: ast.P("out", vX), Body: []ast.Pred{ast.P("q", vX)}}.Lib())
+			_ = a.PrintWorld()
+		}
+		_ = a.Authorize()
+		_ = a.PrintWorld()
+	})
+	datalog.VerifSetDelay("combine.send", 0)
+	if pi != nil {
+		c.Violate("panic/"+pi.Site+"/use-after-timeout", "using the authorizer after Authorize returned a timeout panicked: "+pi.Msg, map[string]any{"desc": desc, "panic": pi})
+	}
+	if timedOut {
+		c.Count("use_after_timeout_runs", 1)
+		c.NT(fmt.Sprintf("use-after-timeout/%d", n))
+	}
+	if st, _, ok := quiesce(60 * time.Second); ok {
+		for _, g := range st {
+			c.Violate("stranded-goroutine/use-after-timeout/"+strandSite(g), "goroutine blocked forever after a timed-out authorization", map[string]any{"desc": desc, "goroutine": g.text})
+		}
+	}
+	c.Sample(desc)
+}
+
+const c10RaceCases = 8
+
 func c10Run(c *core.C) {
+	if c.Idx >= c.Prop.NumCases(c.Tier)-c10RaceCases || c.Idx%97 == 5 {
+		c10UseAfterTimeout(c)
+		return
+	}
 	r := c.R
 	hostile := c10HostileTerms(r)
 	nStructured := 0
@@ -628,6 +696,8 @@ func init() {
 			}
 			return 1600
 		},
+		// the last cases (use after timeout) run in the -race build
+		RaceFrom:     func(tier string) int { return map[string]int{"quick": 1600, "thorough": 24000}[tier] - c10RaceCases },
 		Run:          c10Run,
 		CaseTimeoutS: 300,
 		Floor: func(a *core.Agg) []string {
@@ -635,6 +705,9 @@ func init() {
 			s, rch := a.Cnt["structured_inputs"], a.Cnt["structured_reached_evaluation"]
 			if s == 0 || rch*100 < s*30 {
 				u = append(u, fmt.Sprintf("structured inputs reaching evaluation %d of %d (< 30%%)", rch, s))
+			}
+			if a.Cnt["use_after_timeout_runs"] < 8 {
+				u = append(u, fmt.Sprintf("use-after-timeout runs that really timed out %d < 8", a.Cnt["use_after_timeout_runs"]))
 			}
 			if a.Cnt["inputs:byte-level"] < 1000 {
 				u = append(u, "byte-level inputs < 1000")
